@@ -42,5 +42,6 @@ s2 = lambda: da.sliding_window_view(da.from_array(a2, chunks=(3, 2)), window_sha
 n2 = sw(a2, 5, axis=0).sum(axis=-1)
 check("broadcast_to", lambda: da.broadcast_to(s2(), (2, 16, 2)).compute(), np.broadcast_to(n2, (2, 16, 2)))
 check("blockwise adjust_chunks tuple", lambda: da.blockwise(lambda b: np.repeat(b, 2), "i", s(), "i", dtype=s().dtype, adjust_chunks={"i": tuple(2 * c for c in s().chunks[0])}).compute(), np.repeat(ns, 2))
+check("map_overlap two arrays", lambda: da.map_overlap(lambda p, q: p + np.roll(q, 1), s(), da.from_array(w, chunks=s().chunks), depth=1, boundary="periodic", dtype=float).compute(), ns + np.roll(w, 1))
 check("tsqr R", lambda: abs(da.linalg.tsqr(s()[:, None].astype(float))[1].compute()), abs(np.linalg.qr(ns[:, None].astype(float))[1]))
 sys.exit(1 if bad else 0)
